@@ -67,14 +67,17 @@ class Sched:
         t.start()
         # wait until the new thread is parked at its begin point, so that it is a schedulable option from now on
         with self.cv:
-            self.cv.wait_for(lambda: self.state[name][0] != "running")
+            if not self.cv.wait_for(lambda: self.state[name][0] != "running", timeout=60):
+                raise RuntimeError(f"thread {name} did not reach its first synchronisation point within 60 s")
 
     # ---- controller
     def control(self):
         prev = None
         with self.cv:
             while True:
-                self.cv.wait_for(lambda: self.running is None and self.granted is None)
+                if not self.cv.wait_for(lambda: self.running is None and self.granted is None, timeout=60):
+                    # a thread blocked or spun outside the controlled synchronisation points: the exploration cannot decide anything
+                    raise RuntimeError(f"no progress for 60 s while {self.running!r} was running (blocked outside Queue/Event/deque/Thread operations?)")
                 en = sorted(n for n, s in self.state.items() if s[0] == "pending" and s[2]())
                 if not en:
                     if all(s[0] == "done" for s in self.state.values()):
